@@ -266,6 +266,7 @@ def run(ctx):
                            title="row pairing through case_runner_to_ds(to_df=True) (the Sampler's route) in every configuration", )
     draws_rule(ctx, "C15.R4")
     harvest.sync_order_rule(ctx, "C15.R5", "Sampler")
+    harvest.reload_reads_rule(ctx, "C15.R11", "Sampler")
     c04.grow_order_rule(ctx, "C15.R6")
     harvest.failed_save_rule(ctx, "C15.R7")
     prog = ctx.prog
